@@ -2753,18 +2753,22 @@ let handle_packet s = function
      (match pid with
       | Some id ->
         let duplicate = mem_id id s.s_srv in
-        if duplicate
-        then let reason = N0 in
-             queue_ctl_checked s (CPubRec (id, reason))
-               (negb ((||) duplicate (negb (rc_success reason))))
-        else if N.leb mAX_INBOUND_QOS2 (glen s.s_srv)
-             then let reason = Npos (XI (XI (XO (XO (XI (XO (XO XH))))))) in
-                  queue_ctl_checked s (CPubRec (id, reason))
-                    (negb ((||) duplicate (negb (rc_success reason))))
-             else let s1 = set_srv s (app s.s_srv (id :: [])) in
-                  let reason = N0 in
-                  queue_ctl_checked s1 (CPubRec (id, reason))
-                    (negb ((||) duplicate (negb (rc_success reason))))
+        let full = N.leb mAX_INBOUND_QOS2 (glen s.s_srv) in
+        let reason =
+          if duplicate
+          then N0
+          else if full then Npos (XI (XI (XO (XO (XI (XO (XO XH))))))) else N0
+        in
+        let (s1, hr) =
+          queue_ctl_checked s (CPubRec (id, reason))
+            (negb ((||) duplicate (negb (rc_success reason))))
+        in
+        ((match hr with
+          | HOk _ ->
+            if (||) duplicate full
+            then s1
+            else set_srv s1 (app s.s_srv (id :: []))
+          | HErr _ -> s1), hr)
       | None -> (s, (HErr EInvalidPacket))))
 | RPubAck (pid, rc) ->
   let (o, found) = ack_packet s.s_ob pid in
